@@ -695,16 +695,17 @@ def gen_direct(ctx, n, hist):
         p8 = rng.choice((0.0, -1.0, rng.uniform(0.01, 2)))
         g5 = rng.choice((0.0, rng.uniform(0.1, 5)))
         b3, b4, b5 = rng.choice((0.0, rng.uniform(0.01, 1))), rng.uniform(0.0, 2), rng.choice((0.0, 1e-16, rng.uniform(0.001, 1)))
-        lines.append("NA %d %d %d %s" % (dyn, lim, off, " ".join(tok(v) for v in (h, act, adot, vel, lo, hi, p0, p2, p5, p7, p8, g5, b3, b4, b5))))
-        note("NA:dyntype=%d" % dyn)
-    lines += ["frob 1", "IP 1 7 " + tok(0.002), "NA 3 1 0 " + tok(0.002), "QI " + tok(1.0), "CLIP zz 0 0"]
+        actn = off + rng.choice((1, 1, 2)) if dyn != 5 else 8     # own slot (last of the block) or a preceding slot
+        lines.append("NA %d %d %d %d %s" % (dyn, lim, off, actn, " ".join(tok(v) for v in (h, act, adot, vel, lo, hi, p0, p2, p5, p7, p8, g5, b3, b4, b5))))
+        note("NA:dyntype=%d%s" % (dyn, "" if off == actn - 1 or dyn == 5 else ":not-own-slot"))
+    lines += ["frob 1", "IP 1 7 " + tok(0.002), "NA 3 1 0 1 " + tok(0.002), "QI " + tok(1.0), "CLIP zz 0 0"]
     return lines
 
 
 def judge_direct(line, out, dev):
     w = line.split()
     op = w[0]
-    malformed = op == "frob" or (op == "IP" and len(w) == 4 and w[2] == "7") or (op == "NA" and len(w) == 5) or \
+    malformed = op == "frob" or (op == "IP" and len(w) == 4 and w[2] == "7") or (op == "NA" and len(w) == 6) or \
         (op == "QI" and len(w) == 2) or (op == "CLIP" and w[1] == "zz")
     if out == "bad-op":
         return [] if malformed else [("c05:direct:bad-op", "well-formed op rejected")]
@@ -751,7 +752,7 @@ def judge_direct(line, out, dev):
             v += NV[t]
     elif op == "NA":
         dyn, lim = int(w[1]), int(w[2])
-        f = [frombits(x) for x in w[4:]]
+        f = [frombits(x) for x in w[5:]]
         lo, hi = f[4], f[5]
         r = frombits(out.split()[1])
         if lim and dyn != E("mjDYN_DCMOTOR") and lo <= hi and r == r and not (lo <= r <= hi):
